@@ -11,6 +11,9 @@ address over ALL slots, typed / catch-all / typed+catch-all, two tries optionall
   both:     tables of THREE disjoint try ranges (handler slots over all slots, typed/typed/typed and typed/catch-all/typed,
             identical handler specs with one shared encoded handler and with separate ones) over 3 slots {div-int, if}
             and 4 slots {div-int}; thorough: 3 slots {div-int, goto, if} with four kind patterns
+No-op history (plans again-*): the SAME parsed code analysed again without any edit -- a stand-alone MethodAnalysis(vm, em)
+and a second Analysis(vm) over the same DEX object -- judged exactly like the first analysis (keys end in
+":second-analysis"); every shipped method is likewise analysed twice.
 Plus every method of the shipped DEX files (quick: classes.dex).
 Oracle (ref/cfg.judge_c12): a block reports try range R (get_exception_analysis(): R's start, R's handler addresses,
 each resolved to the block that BEGINS at the handler address) iff some instruction of the block lies in R; a block
@@ -53,6 +56,9 @@ def plans(ctx):
     # the analysis sees them in the order 1, 3, 2 -- every sharing pattern (1,2) (2,3) (1,3) all none occurs
     p.append({"id": "try3-n3-TI", "n": 3, "kinds": "TI", "tries3": ("ttt", "tat")})
     p.append({"id": "try3-n4-T", "n": 4, "kinds": "T", "tries3": ("ttt", "tat")})
+    # no-op history: the same parsed code analysed a second / third time (keys end in :second-analysis)
+    p.append({"id": "again-try-n1", "n": 1, "kinds": "PTRXGIKS", "tries": (2, False), "history": ("reanalyse",)})
+    p.append({"id": "again-try-n2", "n": 2, "kinds": "TGI", "tries": (2, False), "history": ("reanalyse",)})
     if ctx.thorough:
         p.append({"id": "try3-n3-TGI", "n": 3, "kinds": "TGI", "tries3": ("ttt", "tat", "aaa", "ata")})
         p.append({"id": "try1-n3", "n": 3, "kinds": "PTRXGIKS", "tries": (1, False)})
